@@ -21,6 +21,7 @@ import (
 
 	"github.com/casbin/govaluate"
 
+	"github.com/casbin/casbin/v2/model"
 	"github.com/casbin/casbin/v2/persist"
 )
 
@@ -115,19 +116,19 @@ func (e *SyncedEnforcer) ClearPolicy() {
 
 // LoadPolicy reloads the policy from file/database.
 func (e *SyncedEnforcer) LoadPolicy() error {
-	e.m.RLock()
-	newModel, err := e.loadPolicyFromAdapter(e.model)
-	e.m.RUnlock()
+	// the unlocks are deferred: a panic in the adapter or in a role manager must not leave
+	// the lock held (every later writer would block forever)
+	newModel, err := func() (model.Model, error) {
+		e.m.RLock()
+		defer e.m.RUnlock()
+		return e.loadPolicyFromAdapter(e.model)
+	}()
 	if err != nil {
 		return err
 	}
 	e.m.Lock()
-	err = e.applyModifiedModel(newModel)
-	e.m.Unlock()
-	if err != nil {
-		return err
-	}
-	return nil
+	defer e.m.Unlock()
+	return e.applyModifiedModel(newModel)
 }
 
 // LoadFilteredPolicy reloads a filtered policy from file/database.
